@@ -28,6 +28,13 @@ class ADevice(Device):
   def constraints(self, constraints):
     self._constraints = constraints.copy()
 
+  def to_dict(self):
+    ''' Dump the user's own constraints: the cumulative-bound constraints are rebuilt by the constructor. '''
+    data = super().to_dict()
+    if 'constraints' in data:
+      data['constraints'] = self._constraints
+    return data
+
   @property
   def f(self):
     return self._f
